@@ -150,12 +150,40 @@ func measure(w *h.Worker, b *h.Built, stream []byte) {
 		if nshort > 0 {
 			w.Feature("tries_with_short_nodes")
 		}
+		// does a short node straddle a 64-bit word of Inners?
+		ith, ishort := 0, 0
+		straddle := false
+		for wi, x := range s.NodeTypeBM.Words {
+			_ = wi
+			for ; x != 0; x &= x - 1 {
+				if ith >= int(s.BigInnerCnt) {
+					isShort := ith>>6 < len(s.ShortBM.Words) && s.ShortBM.Words[ith>>6]>>(uint(ith)&63)&1 == 1
+					if isShort {
+						from := 240*int(s.BigInnerCnt) + 17*ith + (int(s.ShortSize)-17)*ishort
+						if from&63 > 64-int(s.ShortSize) {
+							straddle = true
+						}
+						ishort++
+					}
+				}
+				ith++
+			}
+		}
+		if straddle {
+			w.Feature("tries_with_short_node_straddling_a_word")
+		}
 	}
 	if len(b.Kept) >= 65 {
 		w.Feature("tries_with_65plus_leaves")
 	}
 	if s.InnerPrefixes != nil && s.InnerPrefixes.EltCnt >= 33 {
 		w.Feature("tries_with_33plus_inner_prefixes")
+	}
+	if s.InnerPrefixes != nil && s.InnerPrefixes.EltCnt >= 129 {
+		w.Feature("tries_with_129plus_inner_prefixes")
+	}
+	if s.LeafPrefixes != nil && s.LeafPrefixes.PositionBM != nil && len(s.LeafPrefixes.PositionBM.SelectIndex) >= 3 {
+		w.Feature("tries_with_65plus_leaf_prefixes")
 	}
 	if len(b.Kept) < len(b.Keys) {
 		w.Feature("tries_with_deduplicated_keys")
@@ -179,8 +207,10 @@ func runTriePass(r *h.Run, phases []phase, oracle trieOracle, accept func(c *h.C
 				if v := evalTrieCase(w, c, u, oracle, true); v != nil {
 					v = shrinkTrieCase(w, c, u, oracle, v)
 					v.Unit = w.Unit()
-					w.Report(*v)
-					return false
+					if w.Report(*v) {
+						return false
+					}
+					return !w.Stopped()
 				}
 				return !w.Stopped()
 			})
